@@ -11,6 +11,7 @@ import (
 	"fmt"
 	"io"
 	"net"
+	"os"
 	"sort"
 	"strings"
 	"sync"
@@ -28,6 +29,7 @@ import (
 	"github.com/hashicorp/consul/agent/structs"
 	raftstorage "github.com/hashicorp/consul/internal/storage/raft"
 	"github.com/hashicorp/consul/internal/verifmc/dump"
+	"github.com/hashicorp/consul/internal/verifmc/vtime"
 )
 
 var initOnce sync.Once
@@ -101,9 +103,16 @@ type World struct {
 	Aux any
 	// LastRaw is the un-normalized result of the last Apply.
 	LastRaw any
+	// LastApplies: raft commands the last step committed (an RPC endpoint may refuse before committing any).
+	LastApplies int
 }
 
 var nullLogger = hclog.NewNullLogger()
+
+var clockStep = func() time.Duration {
+	d, _ := time.ParseDuration(os.Getenv("VERIF_CLOCK_STEP"))
+	return d
+}()
 
 const StartIndex = 10
 
@@ -222,6 +231,7 @@ func (w *World) Apply(op Op) (res string, enabled bool) {
 	}
 	idx := w.Next
 	r := w.ApplyReq(op.Name, t, req)
+	w.LastApplies = 1
 	if op.Model != nil {
 		op.Model(w.Aux, idx)
 	}
@@ -249,6 +259,9 @@ func (w *World) applyRaw(buf []byte, idx uint64) (out string) {
 	}()
 	w.LastRaw = nil
 	w.bind()
+	if clockStep != 0 {
+		vtime.Advance(clockStep) // VERIF_CLOCK_STEP: this process applies every log entry that much later than the previous one
+	}
 	r := w.FSM.Apply(&raft.Log{Index: idx, Term: 1, Type: raft.LogCommand, Data: buf})
 	w.LastRaw = r
 	return NormResult(r)
